@@ -228,3 +228,24 @@ func durationFor(bandwidth int64, n int64) time.Duration {
 func trimPrefix(err error) string {
 	return strings.TrimPrefix(err.Error(), "raft: ")
 }
+
+// globEscape quotes the meta characters of filepath.Glob in path,
+// so that the result, used as pattern, matches only the path itself.
+// a pattern is made by joining dir and file pattern. without this
+// the dir is also interpreted as pattern
+func globEscape(path string) string {
+	var b strings.Builder
+	for i := 0; i < len(path); i++ {
+		switch c := path[i]; {
+		case c == '*' || c == '?' || c == '[':
+			b.WriteByte('[')
+			b.WriteByte(c)
+			b.WriteByte(']')
+		case c == '\\' && runtime.GOOS != "windows":
+			b.WriteString("[\\\\]")
+		default:
+			b.WriteByte(c)
+		}
+	}
+	return b.String()
+}
